@@ -15,8 +15,8 @@
 (*   C(site,arg,kw,star,dstar)  call site: recurse "R", call_next "N",     *)
 (*                   own name "S"; argument positional or *[arg]; keyword  *)
 (*                   k=kw or **{"k": kw}.  Event <site><v>k<kv>.           *)
-(*                   recurse / own name return v + 10 + 1000 kv,           *)
-(*                   call_next v + 100 + 1000 kv                           *)
+(*                   recurse / own name return v + 10 + 3 kv,           *)
+(*                   call_next v + 100 + 3 kv                           *)
 (*   Add If And Or   arithmetic, conditional expression, boolean operators *)
 (*   LC(elt,items,cond,gen)  list comprehension / generator expression     *)
 (*                   over a list display; value = sum of the elements      *)
@@ -60,7 +60,7 @@ Eval(t, x) ==
          ELSE LET k == IF IsNull(t.kw) THEN Ok(<<>>, 0) ELSE Eval(t.kw, x) IN
               IF k.err # 0 THEN [ev |-> a.ev \o k.ev, val |-> 0, err |-> k.err]
               ELSE Ok(a.ev \o k.ev \o <<(IF t.site = "N" THEN "N" ELSE "R") \o ToString(a.val) \o "k" \o ToString(k.val)>>,
-                      a.val + (IF t.site = "N" THEN 100 ELSE 10) + 1000 * k.val)
+                      a.val + (IF t.site = "N" THEN 100 ELSE 10) + 3 * k.val)
     [] t.n = "Add" ->
          LET a == Eval(t.a, x) IN
          IF a.err # 0 THEN a
